@@ -2019,6 +2019,31 @@ fn generate_autocoerce(
 					let address = generate_global_string_literal(bytes, llvm)?;
 					generate_ext_array_view(address, element_type, llvm)
 				}
+				Expression::ArrayLiteral {
+					elements,
+					element_type: _,
+				} =>
+				{
+					let value = expression.generate(llvm)?;
+					let array_type = ValueType::Array {
+						element_type: element_type.clone(),
+						length: elements.len(),
+					};
+					let vtype = array_type.generate(llvm)?;
+					let address = generate_tmp_address(value, vtype, llvm)?;
+					generate_ext_array_view(address, element_type, llvm)
+				}
+				Expression::FunctionCall { .. } | Expression::Builtin(..)
+					if matches!(
+						expression.value_type(),
+						ValueType::Slice { .. }
+					) =>
+				{
+					let slice = expression.generate(llvm)?;
+					let (address, _length) =
+						generate_ptr_and_len_from_slice(slice, llvm)?;
+					generate_ext_array_view(address, element_type, llvm)
+				}
 				_ => unimplemented!(),
 			},
 			viewed_type => match expression
